@@ -457,6 +457,33 @@ func (c *Crasher) nestedImages(dir string, root string) (string, []string) {
 	return name, imgs
 }
 
+// sameSizes reports whether every file of image directory d (and of its merge directory) has the size the
+// file of that name has in the image ref the reopening started from (adoption moves files from the merge
+// directory into the data directory under the same name, so either place counts).
+func sameSizes(d, ref string) bool {
+	want := map[string]map[int64]bool{}
+	for _, r := range []string{ref, MergePath(ref)} {
+		names, sizes := ListDir(r)
+		for i, n := range names {
+			if want[n] == nil {
+				want[n] = map[int64]bool{}
+			}
+			want[n][sizes[i]] = true
+		}
+	}
+	for _, r := range []string{d, MergePath(d)} {
+		names, sizes := ListDir(r)
+		for i, n := range names {
+			if w, ok := want[n]; ok && !w[sizes[i]] {
+				return false
+			} else if !ok && sizes[i] > 0 { // a file created by the retry (Open writes nothing: it can only be an extended empty file)
+				return false
+			}
+		}
+	}
+	return true
+}
+
 // ExploreMerge reopens every image taken during Merge and during the adopting
 // Open: as is (and once more after a clean restart), with the recursive
 // removal of the merge directory interrupted at every point, and - two
@@ -494,7 +521,9 @@ func (c *Crasher) ExploreMerge(thorough bool, stats map[string]int) map[int][]Ev
 					CopyImage(MergePath(run), MergePath(work), nil, nil)
 					_, imgs := c.nestedImages(work, nroot)
 					for _, d := range imgs {
-						im2 := &image{id: im.id, label: im.label + "/retry", clean: im.clean, phys: map[string]int64{}}
+						// a file the interrupted retry had already opened is extended to the mapping size under mmap:
+						// such an image is not "clean" even if the image the retry started from was
+						im2 := &image{id: im.id, label: im.label + "/retry", clean: im.clean && sameSizes(d, run), phys: map[string]int64{}}
 						c.reopen(d, im2, true, -1, 0, stats["level2_images"]%3 == 0, 1+im.id%c.E.U.N(), 2, &out)
 						stats["level2_images"]++
 						os.RemoveAll(d)
